@@ -207,6 +207,18 @@ def run_semantic(ctx, progs):
             b = 'let x = l[%s]\nrule r {\n  %s\n  %%x exists\n}\n' % (i1, body.replace('.%s', '[' + i1 + ']'))
             for d in idx_docs:
                 tb.append((a, b, d))
+    # a first path segment that merely STARTS with the letters of a keyword (some, keys, not, or, let, in, exists, empty, is_, rule,
+    # null, true): written bare and with the explicit leading `this.` (names starting with this / when are rejected by the
+    # grammar when written bare - a loud parse error, not a change of meaning - and are left out)
+    kwn = ['somePort', 'something', 'SOMEFLAG', 'keysList', 'KEYS_x', 'notes', 'NOTE', 'orders', 'ORigin', 'android', 'letter', 'lets', 'inner', 'INNER',
+           'existsFlag', 'emptyList', 'is_listed', 'ruleset', 'nullable', 'trueValue']
+    for w in kwn:
+        for val, docv in ((1, 1), (1, 2)):
+            d = {w: docv, 'o': {w: [docv, docv]}}
+            tb.append(('rule r {\n  %s == %d\n}\n' % (w, val), 'rule r {\n  this.%s == %d\n}\n' % (w, val), d))
+            if w in ('nullable', 'trueValue'):
+                continue      # as the value of a `let` these start like a literal (null / true) and are rejected: loud, not a change of meaning
+            tb.append(('let x = %s\nrule r {\n  %%x == %d\n  o {\n    %s[*] == %d\n  }\n}\n' % (w, val, w, val), 'let x = this.%s\nrule r {\n  %%x == %d\n  o {\n    this.%s[*] == %d\n  }\n}\n' % (w, val, w, val), d))
     for i, (a, b, d) in enumerate(tb):
         pairs.append((a, json.dumps(d))); meta.append((10 ** 6 + i, 'base', a))
         pairs.append((b, json.dumps(d))); meta.append((10 ** 6 + i, 'equivalent-form', b))
